@@ -547,7 +547,7 @@ func C06(c *core.Ctx) {
 			}
 			return true
 		})
-		c.Ob("C06-R4", sfd.Name()+"#sign-prefix", sfd.Decl.Pos(), okSign && nSign >= 2, "the sign prefix of the printed amount is not restricted to \"\" and \"-\"")
+		c.Ob("C06-R4", sfd.Name()+"#sign-prefix", sfd.Decl.Pos(), okSign && nSign >= 1, "the sign prefix of the printed amount is not restricted to \"\" and \"-\"")
 	} else {
 		c.Ob("C06-R4", "UNRESOLVED:num.Amount.String", token.NoPos, false, "method not found")
 	}
